@@ -1,10 +1,11 @@
 """C14 — peers are identified by source address exactly as configured."""
 import ipaddress
 ID = "C14"
-LEAN_TARGETS = ["Rsp.Props.C14", "Rsp.Tie.C14"]
+LEAN_TARGETS = ["Rsp.Props.C14", "Rsp.Props.C14Tls", "Rsp.Tie.C14"]
 THEOREMS = ["Rsp.Props.C14.prefixmatch_iff", "Rsp.Props.C14.resMatches_eq", "Rsp.Props.C14.findConf_meets_spec",
             "Rsp.Props.C14.no_block_no_conf", "Rsp.Addr.mask_and", "Rsp.Addr.top_bits_iff", "Rsp.Tie.C14.mask_tie",
-            "Rsp.Tie.C14.tls_attribution_tie", "Rsp.Tie.C14.dtls_attribution_tie"]
+            "Rsp.Tie.C14.tls_attribution_tie", "Rsp.Tie.C14.dtls_attribution_tie",
+            "Rsp.Props.C14.attribute_sound", "Rsp.Props.C14.no_match_no_block", "Rsp.Props.C14.untrusted_no_block", "Rsp.Props.C14.attribute_first"]
 RULE = ("prefixmatch (hostport.c static) on the full (prefix length x first differing bit) grid for 4- and 16-octet addresses x 3 base addresses; "
         "find_clconf/find_srvconf on generated block lists built through the real addhostport()+resolvehostports(); non-trivial = grid case with a differing bit, "
         "or a lookup with >=2 blocks of the wanted transport")
